@@ -33,6 +33,8 @@ THEOREMS = [
     "Nix.C09.invert_power_twice",
     "Nix.C09.split_compound_sequence",
     "Nix.C09.split_compound_roundtrip",
+    "Nix.C09.scalable_iff_same_unit_power",
+    "Nix.C09.scalable_lists",
     "Nix.C09.atomic_exact",
     "Nix.C09.sanitizer_atoms",
     "Nix.C09.sanitizer_blanks",
@@ -111,6 +113,8 @@ def run_impl(case):
             return {"ok": list(U.split(case[1]))}
         if op == "scalable":
             return {"ok": bool(U.scalable(case[1], case[2]))}
+        if op == "scalable_list":
+            return {"ok": bool(U.scalable(list(case[1]), tuple(case[2])))}
         if op == "scaling":
             r = U.scaling(case[1], case[2])
             fr = Fraction(r)
@@ -197,6 +201,18 @@ def gen_cases(ctx):
         b = rng.choice(optpre) + rng.choice(un) + rng.choice(POWERS)
         add("pair.scalable", ["scalable", a, b])
         add("pair.scaling", ["scaling", a, b])
+    # the list form of scalable: equal / unequal lengths, pairwise (mostly) scalable entries
+    for _ in range(ctx.budget(800, 8000)):
+        n = rng.randint(0, 4)
+        la, lb = [], []
+        for _i in range(n):
+            u, w = rng.choice(un), rng.choice(POWERS)
+            la.append(rng.choice(optpre) + u + w)
+            r = rng.random()
+            lb.append(rng.choice(optpre) + (u if r < 0.85 else rng.choice(un)) + (w if r < 0.93 else rng.choice(POWERS)))
+        if rng.random() < 0.15:
+            (la if rng.random() < 0.5 else lb).append(rng.choice(optpre) + rng.choice(un))
+        add("list.scalable", ["scalable_list", la, lb])
     # compounds of 2-4 atoms
     for _ in range(ctx.budget(1500, 15000)):
         n = rng.randint(2, 4)
@@ -281,7 +297,7 @@ def nontrivial(case, out):
         return True
     v = out.get("ok")
     op = case[0]
-    if op in ("is_atomic", "is_compound", "is_si", "scalable"):
+    if op in ("is_atomic", "is_compound", "is_si", "scalable", "scalable_list"):
         return v is True
     if op == "split":
         return bool(v[0] or v[2])
@@ -343,7 +359,7 @@ def check_case(case):
         elif kind == "ratio":
             p1, p2, u, w = case[1:]
             a, b = p1 + u + w, p2 + u + w
-            if not U.scalable(a, b):
+            if not U.scalable(a, b) or not U.scalable([a, b], [b, a]):
                 return Failure("same unit and power reported not scalable", case, False, True, "units.scalable")
             got = Fraction(U.scaling(a, b))
             want = Fraction(10) ** ((SI_EXP[p1] - SI_EXP[p2]) * _powint(w))
@@ -360,7 +376,7 @@ def check_case(case):
                 return Failure("conversions do not invert", case, [ab, ba], "ab*ba == 1", "units.scaling")
         elif kind == "unscalable":
             a, b = case[1:]
-            if U.scalable(a, b):
+            if U.scalable(a, b) or U.scalable([a, a], [a, b]) or U.scalable([b, a], [a, a]):
                 return Failure("different base unit or power reported scalable", case, True, False, "units.scalable")
             try:
                 r = U.scaling(a, b)
